@@ -52,6 +52,10 @@ def prog_dfg(rnd):
         v = rnd.choice([IntVal(3, 5), V.TRUE, V.Tuple(V.TRUE, IntVal(1)), V.Some(IntVal(2)), V.None_(INT_T), V.Left([V.TRUE], [INT_T]), V.UnitSum(1, 3)])
         outs.append(d.load(v))
     if rnd.random() < 0.3:
+        # an extension constant whose payload is null, of an opaque type
+        ot = T.Opaque("thing", T.TypeBound.Copyable, [T.BoundedNatArg(2)], "my.ext")
+        outs.append(d.load(V.Extension("blank", ot, None, ["my.ext"])))
+    if rnd.random() < 0.3:
         f = Dfg(T.Qubit)
         f.set_outputs(f.add(O.Noop()(f.input_node[0])))
         outs.append(d.load(V.Function(f.hugr)))
@@ -207,7 +211,8 @@ def prog_module(rnd):
     if rnd.random() < 0.5:
         mod.metadata["name"] = "mod"
     f_decl = mod.declare_function("id_decl", T.PolyFuncType([T.TypeTypeParam(A)], T.FunctionType.endo([T.Variable(0, A)])))
-    f_poly = mod.define_function("id_poly", [T.Variable(0, C)], type_params=[T.TypeTypeParam(C)] + ([T.BoundedNatParam(4)] if rnd.random() < 0.5 else []))
+    extra_params = rnd.choice([[], [T.BoundedNatParam(4)], [T.BoundedNatParam(None)]])       # incl. a bounded-nat parameter without an upper bound
+    f_poly = mod.define_function("id_poly", [T.Variable(0, C)], type_params=[T.TypeTypeParam(C)] + extra_params)
     f_poly.set_outputs(f_poly.input_node[0])
     f_mono = mod.define_function("two", [T.Bool], [T.Bool, T.Bool] if rnd.random() < 0.5 else None)
     f_mono.set_outputs(f_mono.input_node[0], f_mono.input_node[0])
